@@ -15,7 +15,9 @@ from . import c08  # noqa: E402
 PROP = "C07"
 
 LOADERS = {"torch._load_from_bytes": ("torch.storage", "_load_from_bytes"), "pickle.loads": ("pickle", "loads"),
-           "_pickle.loads": ("_pickle", "loads")}
+           "_pickle.loads": ("_pickle", "loads"),
+           # the nested payload handed over as a bytearray (BYTEARRAY8) instead of bytes
+           "pickle.loads/bytearray": ("pickle", "loads", "bytearray")}
 CONTAINERS = ("bare", "legacy", "zip")
 LEAVES = {"allowed": ("collections", "OrderedDict"), "nonstd": ("vp_sink", "hit"), "stdlib-unlisted": ("posix", "getpid"),
           # a dotted qualified name (protocol 4 attribute walk) that starts with an allow-listed name
@@ -23,10 +25,17 @@ LEAVES = {"allowed": ("collections", "OrderedDict"), "nonstd": ("vp_sink", "hit"
           # resolved through INST (no GLOBAL / STACK_GLOBAL opcode in the pickle)
           "nonstd-inst": ("vp_sink", "hit", "INST"),
           # a non-listed member of a module that has other allow-listed members
-          "unlisted-member-of-listed-module": ("collections", "Counter")}
+          "unlisted-member-of-listed-module": ("collections", "Counter"),
+          # only resolved, never called: fickling's static analysis rates this LIKELY_SAFE, the allowlist does not list it
+          "benign-unlisted-import-only": ("decimal", "Decimal", "IMPORT")}
 ADDITIONS = {"none": (), "loads": ("pickle.loads", "_pickle.loads"), "sink": ("vp_sink.hit",),
              "all": ("pickle.loads", "_pickle.loads", "vp_sink.hit")}
-ENTRIES = ("pickle.load", "pickle.loads", "_pickle.load", "_pickle.loads")
+ENTRIES = ("pickle.load", "pickle.loads", "_pickle.load", "_pickle.loads",
+           # bytes-like arguments other than bytes
+           "pickle.loads(bytearray)", "_pickle.loads(memoryview)",
+           # fickling's static-analysis hook layered on top of the active ML environment (global hook / context manager)
+           "pickle.load+always_check_safety", "pickle.load+context")
+LAYERED = ("pickle.load+always_check_safety", "pickle.load+context")
 
 
 def restore():
@@ -57,6 +66,15 @@ def wrap(container, inner_global, inner_args):
     """Serialise 'call inner_global(*inner_args)' in the given container format."""
     import torch
 
+    as_bytearray = len(inner_global) == 3 and inner_global[2] == "bytearray"
+    if as_bytearray:
+        if container != "bare":
+            raise ValueError("bytearray payload only in a bare pickle")
+        return asm(("PROTO", 5), ("GLOBAL", inner_global[:2]), ("BYTEARRAY8", inner_args[0]), "TUPLE1", "REDUCE", "STOP")
+    if len(inner_global) == 3 and inner_global[2] == "IMPORT":
+        if container != "bare":
+            raise ValueError("import-only leaf only as a bare pickle")
+        return asm(("GLOBAL", inner_global[:2]), "STOP")
     if len(inner_global) == 3:
         if container != "bare":
             raise ValueError("INST leaf only as a bare pickle")
@@ -103,6 +121,20 @@ def run_entry(entry, data):
         return pickle.loads(data)
     if entry == "_pickle.load":
         return _pickle.load(io.BytesIO(data))
+    if entry == "pickle.loads(bytearray)":
+        return pickle.loads(bytearray(data))
+    if entry == "_pickle.loads(memoryview)":
+        return _pickle.loads(memoryview(data))
+    if entry == "pickle.load+always_check_safety":
+        import fickling.hook as hook
+
+        hook.always_check_safety()
+        return pickle.load(io.BytesIO(data))
+    if entry == "pickle.load+context":
+        import fickling.context as context
+
+        with context.check_safety():
+            return pickle.load(io.BytesIO(data))
     return _pickle.loads(data)
 
 
@@ -170,7 +202,11 @@ def _tree(item):
             # additions of the activation in force count
             if entry != "pickle.loads":
                 continue
-            hook.activate_safe_ml_environment(also_allow=list(ADDITIONS["all"]))
+            hook.activate_safe_ml_environment(also_allow=list(ADDITIONS["all"]) + ["collections.Counter", "decimal.Decimal"])
+            try:
+                pickle.loads(b"N.")  # the earlier activation is used once
+            except Exception:  # noqa: BLE001
+                pass
             aname = aname + "(after all)"
         hook.activate_safe_ml_environment(also_allow=list(adds) or None)
         try:
@@ -195,13 +231,17 @@ def _tree(item):
             continue
         outside = [g for g in reached if g not in allowed]
         if outside:
-            if how != "raised" or not chain_has(val, UnsafeFileError):
+            if entry in LAYERED and how == "raised":
+                st.inc("blocked")  # by either layer; which exception the static layer uses is not this property's business
+            elif how != "raised" or not chain_has(val, UnsafeFileError):
                 out.violate(PROP, f"C07|no-unsafe-error|{how}", f"tree {shape} leaf {leaf} via {entry} additions {aname}: reference load reaches "
                             f"{outside[0]} (not allowed) but the protected load {how} {type(val).__name__ if how == 'raised' else ''}", rp, size)
             else:
                 st.inc("blocked")
         else:
-            if rhow == "returned" and how != "returned":
+            if entry in LAYERED:
+                st.inc("allowed_through_or_refused_by_static_layer")  # the static layer may refuse on its own grounds
+            elif rhow == "returned" and how != "returned":
                 out.violate(PROP, f"C07|allowed-load-fails|{type(val).__name__}", f"tree {shape} leaf {leaf} via {entry} additions {aname}: every global is "
                             f"allowed but the load raised {type(val).__name__}: {val}", rp, size)
             else:
@@ -212,7 +252,7 @@ def _tree(item):
 
 def _via(tree, rfc, g):
     """The (loader, container) level whose payload contains g: count loader globals resolved before g."""
-    loaders = {v: k for k, v in LOADERS.items()}
+    loaders = {v[:2]: k for k, v in LOADERS.items()}
     depth = 0
     for x in rfc:
         if x == g:
